@@ -102,6 +102,7 @@ type Ctx struct {
 	True  *Term
 	False *Term
 	ivals map[int]ival
+	rangeCons map[int]*Term
 	exMemo map[[3]int]*Term
 	kz     map[int]uint64
 }
@@ -244,6 +245,10 @@ func (c *Ctx) Sub(a, b *Term) *Term {
 	}
 	if a == b {
 		return c.Const(0, w)
+	}
+	// x - (x + c) = -c
+	if b.Op == OpAdd && b.Args[0] == a && b.Args[1].IsConst() {
+		return c.Const(-b.Args[1].Val, w)
 	}
 	// (x + y) - x = y ; (x + y) - y = x
 	if a.Op == OpAdd {
@@ -841,6 +846,12 @@ func (c *Ctx) ZExt(a *Term, w int) *Term {
 	if a.Op == OpIte && a.Args[1].IsConst() && a.Args[2].IsConst() {
 		return c.Ite(a.Args[0], c.ZExt(a.Args[1], w), c.ZExt(a.Args[2], w))
 	}
+	// zext(x[k-1:0]) = x when x is known to fit in k bits (a length that was written to the wire and read back)
+	if a.Op == OpExtract && a.Lo == 0 && a.Args[0].W() == w && a.W() < 62 {
+		if ix := c.interval(a.Args[0]); ix.ok && ix.lo >= 0 && ix.hi <= int64(mask(a.W())) {
+			return a.Args[0]
+		}
+	}
 	return c.mk(&Term{Op: OpZExt, S: BV(w), Args: []*Term{a}})
 }
 
@@ -960,10 +971,34 @@ func (c *Ctx) Eq(a, b *Term) *Term {
 		}
 		a, b = b, a
 	}
+	if !a.S.IsBool() && !a.S.IsArray() {
+		if ia, ib := c.interval(a), c.interval(b); ia.ok && ib.ok && (ia.hi < ib.lo || ib.hi < ia.lo) {
+			return c.False
+		}
+	}
 	if a.ID > b.ID && !b.IsConst() {
 		a, b = b, a
 	}
 	return c.mk(&Term{Op: OpEq, S: BoolSort, Args: []*Term{a, b}})
+}
+
+// AssumeRange records that the variable v lies in [0, hi] (unsigned) for interval folding and returns the constraint
+// as a raw, never folded term. The caller MUST assume the returned term on every path that uses v: all folds
+// derived from the recorded range are only valid under it.
+func (c *Ctx) AssumeRange(v *Term, hi int64) *Term {
+	if c.rangeCons == nil {
+		c.rangeCons = map[int]*Term{}
+	}
+	if t, ok := c.rangeCons[v.ID]; ok {
+		return t
+	}
+	t := c.mk(&Term{Op: OpUle, S: BoolSort, Args: []*Term{v, c.Const(uint64(hi), v.W())}})
+	c.rangeCons[v.ID] = t
+	if c.ivals == nil {
+		c.ivals = map[int]ival{}
+	}
+	c.ivals[v.ID] = ival{0, hi, true}
+	return t
 }
 
 func (c *Ctx) cmp(op Op, a, b *Term) *Term {
@@ -986,10 +1021,39 @@ func (c *Ctx) cmp(op Op, a, b *Term) *Term {
 	if a == b {
 		return c.Bool(op == OpUle || op == OpSle)
 	}
+	// x + k1 cmp x + k2 with the same base x: decided by the constants when neither side can wrap
+	if ba, ka := linBase(a); ba != nil {
+		if bb, kb := linBase(b); bb == ba && w == 64 {
+			if ix := c.interval(ba); ix.ok {
+				sa, sb := int64(ka), int64(kb)
+				lo1, hi1, ok1 := addNoWrap(ix, sa)
+				lo2, hi2, ok2 := addNoWrap(ix, sb)
+				signed := op == OpSlt || op == OpSle
+				if ok1 && ok2 && (signed || (lo1 >= 0 && lo2 >= 0)) {
+					_, _ = hi1, hi2
+					switch op {
+					case OpUlt, OpSlt:
+						return c.Bool(sa < sb)
+					default:
+						return c.Bool(sa <= sb)
+					}
+				}
+			}
+		}
+	}
 	if w < 62 || true {
 		ia, ib := c.interval(a), c.interval(b)
 		if ia.ok && ib.ok {
 			signedOK := op == OpSlt || op == OpSle
+			if !signedOK && w == 64 {
+				// a value whose signed interval is entirely negative is at least 2^63 as an unsigned number
+				if ia.hi < 0 && ib.lo >= 0 {
+					return c.False
+				}
+				if ib.hi < 0 && ia.lo >= 0 {
+					return c.True
+				}
+			}
 			if signedOK || (ia.lo >= 0 && ib.lo >= 0) {
 				switch op {
 				case OpUlt, OpSlt:
@@ -1752,4 +1816,24 @@ func (c *Ctx) knownZero(t *Term) uint64 {
 	}
 	c.kz[t.ID] = r
 	return r
+}
+
+// linBase splits t into base + constant (base nil for other shapes); a bare term is base + 0.
+func linBase(t *Term) (*Term, uint64) {
+	if t.IsConst() {
+		return nil, t.Val
+	}
+	if t.Op == OpAdd && t.Args[1].IsConst() {
+		return t.Args[0], t.Args[1].Val
+	}
+	return t, 0
+}
+
+// addNoWrap: the interval of x + k when it provably stays inside the signed 64-bit range.
+func addNoWrap(ix ival, k int64) (lo, hi int64, ok bool) {
+	const lim = int64(1) << 62
+	if ix.lo < -lim || ix.hi > lim || k < -lim || k > lim {
+		return 0, 0, false
+	}
+	return ix.lo + k, ix.hi + k, true
 }
